@@ -17,6 +17,9 @@ pub trait Engine: Sync {
     fn run(&self, ctx: &Ctx, variant: u64);
     /// What ran real and what was a stub.
     fn components(&self) -> Value;
+    /// the property this engine's check decides (violations the harness cannot attribute to a
+    /// particular oracle - a valid value refused while it was being constructed - are filed here)
+    fn property(&self) -> &'static str;
     fn rule(&self) -> String;
     fn assumptions(&self) -> Vec<String>;
     /// probes that must be non-zero in the thorough tier
@@ -117,6 +120,10 @@ pub fn on_fresh_thread<R: Send>(f: impl FnOnce() -> R + Send) -> R {
     })
 }
 
+/// Prefix of the panic message used when the code under test refuses a value that is valid by
+/// construction (see `exec_one`).
+pub const VALID_VALUE_REFUSED: &str = "VALID-VALUE-REFUSED";
+
 pub fn exec_one(engine: &dyn Engine, tape: Tape, variant: u64, log: bool) -> RunOut {
     let ctx = Ctx::new(tape, log);
     // Every run gets a thread of its own: whatever the code under test keeps per thread
@@ -124,8 +131,14 @@ pub fn exec_one(engine: &dyn Engine, tape: Tape, variant: u64, log: bool) -> Run
     // runs a worker happened to execute before it. History on one thread is built inside a run.
     let r = on_fresh_thread(|| guarded(|| engine.run(&ctx, variant)));
     if let Err(msg) = r {
-        // a panic that escaped the engine's own guards is a harness error
-        ctx.violation("HARNESS", "harness_panic", msg);
+        if msg.starts_with(VALID_VALUE_REFUSED) {
+            // the harness builds its values through the public constructors and the client
+            // deserializer; one of them refused a value that is valid by construction
+            ctx.violation(engine.property(), "valid_value_refused_while_constructing_it", msg);
+        } else {
+            // a panic that escaped the engine's own guards is a harness error
+            ctx.violation("HARNESS", "harness_panic", msg);
+        }
     }
     let mut g = ctx.lock();
     let violations = std::mem::take(&mut g.violations)
